@@ -55,6 +55,15 @@ class Spec(object):
                 else:
                     parts.append(bytes([rng.choice([0, 10, 13, 32, 97, 255, rng.randrange(256)])]))
             yield (b''.join(parts), nl)
+        # large data: a multi-byte newline across a power-of-two offset (an implementation working
+        # in blocks must not lose it), and long periodic content whose period does not divide one
+        for nl in NEWLINES:
+            if len(nl) < 2:
+                continue
+            for block in (4096, 8192, 65536):
+                j = rng.randrange(1, len(nl))
+                yield (b'a' * (block - j) + nl + b'b' + nl + b'c', nl)
+            yield ((b'line' + nl) * rng.choice([1500, 2200]) + rng.choice([b'', b'tail']), nl)
 
     def request(self, case):
         data, nl = case
@@ -140,7 +149,7 @@ def budget_for(tier, escalate):
 def explore(ctx, escalate=False, hint=None):
     budget = budget_for(ctx.run.tier, escalate)
     rule = ('every byte string over {CR, LF, NUL, SP, a} of length 1..%d x 10 library newlines '
-            '(exhaustive) + %d seeded random longer strings; both keep_ends modes; a case is '
+            '(exhaustive) + %d seeded random longer strings + large data with a newline across offsets 4096 / 8192 / 65536; both keep_ends modes; a case is '
             'non-trivial when the newline occurs in the data; distinct = distinct (data, newline)'
             % budget)
     r1 = base.explore_generic(ctx, Spec(), budget, rule, exhaustive=True)
